@@ -13,6 +13,7 @@ service Rich {
   binary blob(1: binary data),
   double scale(1: double x),
   list<string> names(1: i32 n),
+  void guard(1: string what) throws (1: E1 e1, 2: E2 e2),
 }
 """
 from thrift.Thrift import TType, TMessageType, TApplicationException, TProcessor
@@ -94,6 +95,9 @@ class Iface(object):
   def names(self, n):
     pass
 
+  def guard(self, what):
+    pass
+
 
 def _mk(name, slots, spec):
   def __init__(self, *args, **kwargs):
@@ -133,6 +137,13 @@ scale_args = _mk('scale_args', ('x',), (None, (1, TType.DOUBLE, 'x', None, None,
 scale_result = _mk('scale_result', ('success',), ((0, TType.DOUBLE, 'success', None, None,),))
 names_args = _mk('names_args', ('n',), (None, (1, TType.I32, 'n', None, None,),))
 names_result = _mk('names_result', ('success',), ((0, TType.LIST, 'success', (TType.STRING, 'UTF8', False), None,),))
+guard_args = _mk('guard_args', ('what',), (None, (1, TType.STRING, 'what', 'UTF8', None,),))
+# a void method that declares exceptions: the compiler leaves slot 0 (success) empty
+guard_result = _mk('guard_result', ('e1', 'e2'), (
+    None,
+    (1, TType.STRUCT, 'e1', [E1, E1.thrift_spec], None,),
+    (2, TType.STRUCT, 'e2', [E2, E2.thrift_spec], None,),
+))
 
 for _cls in (Item, E1, E2):
   _cls.thrift_spec = tuple(_cls.thrift_spec)
@@ -150,6 +161,7 @@ METHODS = {
     'blob': (('data',), (), False),
     'scale': (('x',), (), False),
     'names': (('n',), (), False),
+    'guard': (('what',), ('e1', 'e2'), True),
 }
 
 
